@@ -279,6 +279,16 @@ theorem C18_code_validate_only_when_asked (props : List SProp) (vS : Nat → Opt
   unfold validateNode
   cases (spropAt props i).cfgType <;> simp [h]
 
+/-- a time value (a struct in Go's eyes, but one the validator refuses as a struct) is validated as a VARIABLE — the repair
+    of defect D25: before it, a bound, valid `time.Time` with any validate argument failed the start -/
+theorem C18_code_validate_time_as_variable (props : List SProp) (vS : Nat → Option String) (vV : Nat → String → Option String)
+    (i : Nat) (w : SW) (ts : List String) (hc : (spropAt props i).cfgType = true) (hv : (spropAt props i).validate = some ts)
+    (ht : (spropAt props i).isTime = true) (hn : ((spropAt props i).isPtr && (spropAt props i).isNil) = false)
+    (hi : (spropAt props i).canIface = true) :
+    validateNode props vS vV i w = (w ++ [.vVar i (",".intercalate ts)], vV i (",".intercalate ts)) := by
+  unfold validateNode
+  simp [hc, hv, ht, hn, hi]
+
 /-- the hand-written validate stage is the same decision (the model has one validator function for structs and variables,
     every bound value can be read) -/
 theorem C18_validateStage_is_decision (validate : FVal → List Bytes → Bool) (args : Tag.Args) (ty : FieldTy) (b : Option FVal) :
